@@ -347,6 +347,19 @@ func (s *Store[H]) DeleteRange(ctx context.Context, from, to uint64) error {
 		)
 	}
 
+	// ask the flush loop to write the pending batch out: head and tail pointers are written
+	// directly below and must never get ahead of headers that are not on disk yet
+	select {
+	case s.writes <- []H{}:
+	case <-s.writesDn:
+		return errStoppedStore
+	case <-ctx.Done():
+		return ctx.Err()
+	}
+	if err := s.Sync(ctx); err != nil {
+		return err
+	}
+
 	if updateHead && !updateTail {
 		// Recede the head below the range before deleting anything, s.t. a crash or failure
 		// in the middle of the deletion never leaves the persisted head above a hole.
